@@ -159,7 +159,43 @@ func TestVerif_C12_Invitations(t *testing.T) {
 		if m.OpLog().Len() != before+1 {
 			fail("refused-join-appended/second-join", "refused second join appended an entry")
 		}
+		// after leaving the group an altered invitation for the same identifier is refused as before, and the genuine
+		// one is accepted again
+		gpk, _ := inv.GetPubKey()
+		if _, err := m.GroupLeave(vCtx, gpk); err != nil {
+			fail("leave-refused", "leaving the joined group failed: %v", err)
+		}
+		for _, mu := range c12Mutants(rt, inv, other, acc, contact) {
+			if !mu.parses || rapid.IntRange(0, 9).Draw(rt, "after-leave-sample") != 0 {
+				continue // a sample of the mutants that only the signature / type check can stop
+			}
+			before, jb := m.OpLog().Len(), joined()
+			if _, err := m.GroupJoin(vCtx, mu.g); err == nil {
+				fail("altered-invitation-accepted/after-leave/"+mu.label, "after the group was joined and left, joining with an altered invitation (%s) succeeded", mu.label)
+			}
+			if m.OpLog().Len() != before || joined() != jb {
+				fail("refused-join-appended/after-leave", "refused join (%s) after a leave appended entries / changed the joined groups", mu.label)
+			}
+		}
+		for _, f := range []func(g *protocoltypes.Group){
+			func(g *protocoltypes.Group) { g.Secret = other.Secret },
+			func(g *protocoltypes.Group) { g.SecretSig = nil },
+			func(g *protocoltypes.Group) { g.Secret, g.SecretSig = other.Secret, other.SecretSig },
+		} {
+			g := proto.Clone(inv).(*protocoltypes.Group)
+			f(g)
+			if _, err := m.GroupJoin(vCtx, g); err == nil {
+				fail("altered-invitation-accepted/after-leave", "after the group was joined and left, an invitation with a substituted secret / removed signature was accepted")
+			}
+		}
+		if _, err := m.GroupJoin(vCtx, inv); err != nil {
+			fail("valid-invitation-refused/after-leave", "re-joining with the genuine invitation after a leave failed: %v", err)
+		}
+		if joined() != 1 {
+			fail("valid-join-not-recorded", "after join, leave, join the group is not listed as joined")
+		}
 		acct.Label("honest-join")
+		acct.Label("join-leave-altered-rejoin")
 	})
 }
 
